@@ -101,10 +101,27 @@ func c36RHH(r *vkit.Run, rg *vkit.Rand, ci int) {
 		bad = true
 		c36T.V("rhh_differs_from_map", feat(op), map[string]any{"options": fmt.Sprintf("%+v", opt), "want": want, "got": got, "history_tail": c36Tail(hist)})
 	}
-	checkAll := func(where string) {
-		if int(m.Len()) != len(model) {
-			fail("Len", fmt.Sprint(len(model)), fmt.Sprint(m.Len(), " (", where, ")"))
+	// Len: a deviation is reported once; if it is exactly "one short while the empty key is
+	// present" the sequence goes on with that offset so that everything else stays checked.
+	lenOff := 0
+	lenCheck := func(where string) {
+		if int(m.Len())+lenOff == len(model) {
+			return
 		}
+		if _, hasEmpty := model[""]; hasEmpty && lenOff == 0 && int(m.Len())+1 == len(model) {
+			lenOff = 1
+			c36T.V("rhh_differs_from_map", feat("Len"), map[string]any{"options": fmt.Sprintf("%+v", opt), "want": fmt.Sprint(len(model)), "got": fmt.Sprint(m.Len(), " (", where, ")"), "history_tail": c36Tail(hist)})
+			if opt.LoadFactor >= 100 {
+				// with the count one short and load factor 100 the table can fill completely and
+				// the next Put of a new key spins forever in insert(); stop this sequence here
+				bad = true
+			}
+			return
+		}
+		fail("Len", fmt.Sprint(len(model)), fmt.Sprint(m.Len(), " (", where, ", offset ", lenOff, ")"))
+	}
+	checkAll := func(where string) {
+		lenCheck(where)
 		for _, k := range dom {
 			got := m.Get(append([]byte(nil), k...))
 			want, ok := model[string(k)]
@@ -146,7 +163,7 @@ func c36RHH(r *vkit.Run, rg *vkit.Rand, ci int) {
 				fail("Elem", fmt.Sprintf("%q→%d", k, v), fmt.Sprintf("%d (%s)", seen[k], where))
 			}
 		}
-		if c := m.Cap(); c&(c-1) != 0 || c < m.Len() {
+		if c := m.Cap(); c&(c-1) != 0 || c < int64(len(model)) {
 			fail("Cap", "power of two ≥ Len", fmt.Sprint(c))
 		}
 		r.Event("rhh_full_comparisons", 1)
@@ -167,9 +184,7 @@ func c36RHH(r *vkit.Run, rg *vkit.Rand, ci int) {
 			}
 			model[string(k)] = ctr
 			hist = append(hist, c36Op{Op: "Put", Key: string(k), Val: ctr})
-			if int(m.Len()) != len(model) {
-				fail("Len", fmt.Sprint(len(model)), fmt.Sprint(m.Len(), " after Put"))
-			}
+			lenCheck("after Put")
 			r.Event("rhh_put", 1)
 		case x < 90:
 			got := m.Get(k)
@@ -191,6 +206,7 @@ func c36RHH(r *vkit.Run, rg *vkit.Rand, ci int) {
 			hist = append(hist, c36Op{Op: "Reset"})
 			m.Reset()
 			model = map[string]int{}
+			lenOff = 0
 			checkAll("after Reset")
 		default:
 			checkAll("mid")
@@ -366,6 +382,14 @@ func c36Radix(r *vkit.Run, rg *vkit.Rand, ci int) {
 		}
 		return fmt.Sprintf("%q", s)
 	}
+	mmReported := false
+	failMM := func(op, want, got string) {
+		if mmReported || bad {
+			return
+		}
+		mmReported = true
+		c36T.V("radix_differs_from_sorted_map", feat(op), map[string]any{"want": want, "got": got, "history_tail": c36Tail(hist)})
+	}
 	minmax := func() {
 		ks := sortedKeys()
 		k, v, ok := t.Minimum()
@@ -374,16 +398,16 @@ func c36Radix(r *vkit.Run, rg *vkit.Rand, ci int) {
 		r.Event("radix_minmax", 1)
 		if len(ks) == 0 {
 			if ok || ok2 {
-				fail("Minimum", "not found (empty)", fmt.Sprint(short(string(k)), ok, short(string(k2)), ok2))
+				failMM("Minimum", "not found (empty)", fmt.Sprint(short(string(k)), ok, short(string(k2)), ok2))
 			}
 			return
 		}
 		if !ok || string(k) != ks[0] || v != model[ks[0]] {
-			fail("Minimum", fmt.Sprint(short(ks[0]), "→", model[ks[0]]), fmt.Sprint(short(string(k)), "→", v, " found=", ok))
+			failMM("Minimum", fmt.Sprint(short(ks[0]), "→", model[ks[0]]), fmt.Sprint(short(string(k)), "→", v, " found=", ok))
 		}
 		last := ks[len(ks)-1]
 		if !ok2 || string(k2) != last || v2 != model[last] {
-			fail("Maximum", fmt.Sprint(short(last), "→", model[last]), fmt.Sprint(short(string(k2)), "→", v2, " found=", ok2))
+			failMM("Maximum", fmt.Sprint(short(last), "→", model[last]), fmt.Sprint(short(string(k2)), "→", v2, " found=", ok2))
 		}
 	}
 	checkAll := func() {
